@@ -120,10 +120,15 @@ def run(ctx):
     # line-length sweep on the console: 350 consecutive line lengths around 4096 (the size of a default bufio buffer)
     sweep = [("console", "TextLayout", 1, 350), ("console", "JSONLayout", 1, 350)]
     runs += sweep
+    # formatting buffers whose capacity equals the buffer-reuse cap (1 KiB, lines of ~900 bytes), four goroutines
+    capb = [("file", "TextLayout", 4, 150), ("console", "JSONLayout", 4, 150)]
+    runs += capb
     for i, (kind, layout, g, n) in enumerate(runs):
         extra = []
         if (kind, layout, g, n) in sweep:
             extra += ["--padsweep", "3850"]
+        if (kind, layout, g, n) in capb:
+            extra += ["--bufcap", "1KB", "--padfixed", "800"]
         if i % 2 == 1:
             extra += ["--layoutat", "logger"]          # the logger formats, the appender's Write path is used
         if layout == "TextLayout" and i % 3 == 0:
